@@ -26,6 +26,10 @@ Cases ==
             a \in {5, 7, 11, 13, 17, 19, 23, 29}, k \in 1..(2 * Reps) }
   \cup { [runner |-> "ptrace-trap", prog |-> "sleep", at |-> a, nfiles |-> 3, destroy |-> FALSE, frozen |-> FALSE, rep |-> 400 + k] :
             a \in {5, 6, 7, 8, 9, 10, 11, 13}, k \in 1..(3 * Reps) }
+  \* a program whose descendants ignore signals and leave its session / process group: all of them must be
+  \* gone when the cancelled run returns, and the environment must serve the next (cancelled) run
+  \cup { [runner |-> r, prog |-> "tree", at |-> a, nfiles |-> 3, destroy |-> FALSE, frozen |-> FALSE, rep |-> 500 + k] :
+            r \in {"container", "container-sa", "unshare"}, a \in {120, 200}, k \in 1..Reps }
   \* Destroy while a call is in flight (container only)
   \cup { [runner |-> r, prog |-> p, at |-> a, nfiles |-> 3, destroy |-> TRUE, frozen |-> FALSE, rep |-> k] :
             r \in {"container", "container-sa"}, p \in {"sleep", "quick", "open", "ping"}, a \in Offsets \ {-1}, k \in 1..Reps }
